@@ -34,6 +34,7 @@ type Gen struct {
 	NameOwner map[string]int
 	Contracts []Contract
 	Staked  map[int]bool
+	Balance func(i int) *big.Int // optional: current balance of account i (for kinds that depend on it)
 	nameSeq int
 	Kinds   []string // enabled kinds
 	MaxAcct int      // the generator only uses accounts [0,MaxAcct) (0 = all)
@@ -185,6 +186,28 @@ func (g *Gen) Block(no uint64, n int) []*GTx {
 			sp.Nonce = g.Nonce[i] + pend[i] + 2 + uint64(g.R.Intn(3))
 			exp, useNonce = "reject", false
 			desc = fmt.Sprintf("badnonce-gap a%d nonce=%d", i, sp.Nonce)
+		case "xfer-sweep":
+			// empties the account down to a remainder around the base fee (needs the current balance)
+			if g.Balance == nil || pend[i] > 0 {
+				continue
+			}
+			bal := g.Balance(i)
+			if bal == nil || bal.Sign() <= 0 {
+				continue
+			}
+			base := new(big.Int).Mul(sp.GasPrice, big.NewInt(100000))
+			left := []*big.Int{big.NewInt(0), big.NewInt(1), new(big.Int).Sub(base, big.NewInt(1)), new(big.Int).Rsh(base, 1), new(big.Int).Set(base), new(big.Int).Add(base, big.NewInt(1)),
+				new(big.Int).Mul(base, big.NewInt(2))}[g.R.Intn(7)]
+			amt := new(big.Int).Sub(bal, left)
+			if amt.Sign() <= 0 {
+				continue
+			}
+			sp.Type, sp.To, sp.Amount = types.TxType_TRANSFER, g.acct(g.pick()).Addr, amt
+			if g.R.Intn(4) == 0 {
+				sp.Type = types.TxType_NORMAL
+			}
+			exp = "maybe"
+			desc = fmt.Sprintf("xfer-sweep a%d leaves %s", i, left)
 		case "stake", "stake-small":
 			sp.Type, sp.To = types.TxType_GOVERNANCE, []byte(types.AergoSystem)
 			sp.Payload = GovPayload("v1stake")
